@@ -345,10 +345,14 @@ def run_queries(d):
     """returns (pins, bases, {base: modes}, {base: pins} or None)"""
     comp = d["comp"]
     base = netlib.comp_model(comp)
+    bn = d.get("bnames") or [f"p{k}" for k in range(comp["n"])]
+    if d.get("bnames"):
+        # base names that contain underscores (in_1, port_a1): a query must compare base names, never parse printable names
+        base.pin_mapping({Pin(f"p{k}"): Pin(bn[k]) for k in range(comp["n"])})
     if d["modes"]:
         base = base.expand_mode(list(d["modes"]))
     kind = d["kind"]
-    queried = [f"p{k}" for k in range(comp["n"])] + ["nosuch"]
+    queried = list(bn) + ["nosuch"] + sorted({b.split("_")[0] for b in bn if "_" in b} - set(bn))
     out = {}
 
     def guard(f):
@@ -392,7 +396,7 @@ def run_queries(d):
         out["modes"] = {b: guard(lambda b=b: list(st.get_pin_modenames(b))) for b in queried}
         out["pinsof"] = {b: guard(lambda b=b: [(p.basename, p.mode_name) for (s, p) in st.get_pins(b)])
                          for b in queried}
-    want = {(f"p{k}", m) for k in range(comp["n"]) for m in (d["modes"] or [None])}
+    want = {(bn[k], m) for k in range(comp["n"]) for m in (d["modes"] or [None])}
     if set(pins) != want or len(pins) != len(want):
         raise ValueError("object's pins differ from what was built")
     return pins, out
@@ -413,6 +417,9 @@ class QueryStream(Stream):
             out.append({"comp": g["comps"][0], "modes": rng.sample(MODE_POOL, nm),
                         "kind": rng.choice(["model", "solved", "structure", "structure", "substructure", "substructure"]),
                         "mode_major": rng.random() < 0.6})
+            if rng.random() < 0.5:
+                n = g["comps"][0]["n"]
+                out[-1]["bnames"] = rng.sample(["in_1", "in_2", "in", "port_a1", "p_0", "x", "o_1_2"], n)
         return out
 
     def run(self, d):
